@@ -240,19 +240,29 @@ class World:
         info = self.ensure_proc(op.get("proc", 0))
         prog = self.versions[info["ver"]]
         fn = op["entry"]
-        if fn not in prog["funcs"] or prog["funcs"][fn]["kind"] not in ("plain", "data"):
+        if fn not in prog["funcs"]:
             self.log.append([i, "eval-skipped", fn])
             return
         f = prog["funcs"][fn]
         style = op.get("style", "eval")
-        if style == "call" and f["kind"] != "data":
+        keepcall = None
+        if f["kind"] == "target":
+            keepcall = gen.driver_keep_call(prog, fn) if style == "keep" else None
+            if keepcall is None:
+                self.log.append([i, "eval-skipped", fn])
+                return
+            self.probe("driver_keep_entry")
+        elif style == "keep" or (style == "call" and f["kind"] != "data"):
             style = "eval"
         entry = ir.modname(prog, f["mod"]) + ":" + fn
         sid = self.store_id(info)
         bsp = self.blob_space(info)
         m = self.model(sid)
         bm = self.model("blobs:" + bsp)
-        (ref,), newtab = ref_eval(self.srcdir(info["ver"]), [{"entry": entry}], table=m["table"],
+        rq = {"entry": entry}
+        if keepcall is not None:
+            rq = {"entry": entry, "style": "keep", "path": keepcall[0], "args": keepcall[1], "kwargs": keepcall[2]}
+        (ref,), newtab = ref_eval(self.srcdir(info["ver"]), [rq], table=m["table"],
                                   mutations=info["mutations"],
                                   modules=[ir.modname(prog, mm) for mm in prog["mods"]])
         opts = dict(op.get("opts", {}))
@@ -261,6 +271,8 @@ class World:
             gfile = os.path.join(self.root, f"graph_{i}.{opts['dds_export_graph']}")
             opts["dds_export_graph"] = gfile
         cmd = {"cmd": "eval", "entry": entry, "style": style, "options": opts}
+        if keepcall is not None:
+            cmd.update({"path": keepcall[0], "args": keepcall[1], "kwargs": keepcall[2]})
         if op.get("fail"):
             cmd["fail"] = op["fail"]
         snap_before = self.store_snapshot(info) if op.get("snap") else None
